@@ -159,6 +159,16 @@ func (w *World) NewQuery(root int, selName string, sel datamodel.Node) (*Query, 
 	return &Query{W: w, Root: root, SelName: selName, Sel: sel, LT: loads, view: &view}, nil
 }
 
+// LTLine: the query's link tree with visit counts in the line-protocol format of the requestor model
+// ("<n> block:parent:path:vData:vSkip …", path segments interned per query).
+func (q *Query) LTLine() (string, error) {
+	lt, vd, vs, err := dag.VisitTable(q.view, q.Sel)
+	if err != nil {
+		return "", err
+	}
+	return lt.FormatV(dag.NewSegInterner().Name, vd, vs), nil
+}
+
 // Selectors offered by name (deterministic, so that a case file can name them).
 var SelNames = []string{"all", "depth1", "depth2", "depth3", "field-a", "field-b", "union", "range"}
 
